@@ -1320,7 +1320,11 @@ func (s *PrintCtx) appendError(err error) {
 func (s *PrintCtx) appendValue(val any) {
 	switch z := val.(type) {
 	case nil:
-		s.pcAppendStringValue("<nil>")
+		if s.jsonMode {
+			s.pcAppendStringValue("null")
+		} else {
+			s.pcAppendStringValue("<nil>")
+		}
 
 	case ObjectSerializer:
 		// pc.useColor = !s.noColor
